@@ -1,4 +1,144 @@
 import SdbModel.Model.Reconciler
-/-! # C15 — theorems under construction (see DESIGN.md section 4) -/
+
+/-!
+# C15 — Reconciler status write-back never misreports or clobbers
+
+> The reconciler marks an object Done or Error only for the version it
+> actually passed to Update: if the object was changed or deleted while the
+> operation ran, the stale result is dropped, the newer version is neither
+> overwritten nor lost nor a deleted object re-created (…).  Its writes change
+> nothing but the status of the object (…).
+
+Decision logic of `commitStatus` stated outright over `Model.Reconciler`
+(`R.commitOne` is one iteration of its loop).
+-/
 namespace Sdb
+open Rec
+
+private theorem retryAdd_objs (r : R) (o : RObj) (a b : Nat) (d : Bool) : (r.retryAdd o a b d).objs = r.objs := rfl
+
+private theorem find_map_other (l : List RObj) (n : RObj) (k id : Nat) (hn : n.id = k) (h : id ≠ k) :
+    (l.map fun x => if x.id = k then n else x).find? (fun x => decide (x.id = id)) = l.find? (fun x => decide (x.id = id)) := by
+  induction l with
+  | nil => rfl
+  | cons x xs ih =>
+    simp only [List.map_cons, List.find?_cons]
+    by_cases hx : x.id = k
+    · have h1 : ¬ (n.id = id) := by rw [hn]; exact fun e => h e.symm
+      have h2 : ¬ (x.id = id) := by rw [hx]; exact fun e => h e.symm
+      have h3 : ¬ (k = id) := fun e => h e.symm
+      simp [hx, h1, h3, ih]
+    · simp [hx, ih]
+
+private theorem get_setObj_other (r : R) (o : RObj) (id : Nat) (h : id ≠ o.id) : (r.setObj o).get id = r.get id := by
+  unfold R.setObj R.get
+  simp only
+  split
+  · exact find_map_other r.objs _ o.id id rfl h
+  · rw [List.find?_append]
+    have : ¬ (o.id = id) := fun e => h e.symm
+    simp [this]
+
+/-- a status is written only for the version that was reconciled: either the
+    object still has the revision it was read at, or only its status changed and
+    it still carries the same pending id -/
+theorem C15_status_only_for_reconciled_version (r : R) (res : RObj × RObj × Nat × Nat × Bool)
+    (hchg : (r.commitOne res).objs ≠ r.objs) :
+    ∃ cur, r.get res.1.id = some cur ∧
+      (cur.rev = res.2.2.1 ∨ (cur.kind = .pending ∧ cur.sid = res.2.2.2.1)) := by
+  obtain ⟨obj, orig, rev, sid, failed⟩ := res
+  unfold R.commitOne at hchg
+  simp only at hchg ⊢
+  split at hchg
+  · exact absurd rfl hchg
+  · rename_i cur hcur
+    refine ⟨cur, hcur, ?_⟩
+    by_cases h1 : cur.rev = rev
+    · exact Or.inl h1
+    · by_cases h2 : cur.kind = .pending ∧ cur.sid = sid
+      · exact Or.inr h2
+      · simp [h1, h2] at hchg
+
+/-- a stale result (object changed: other revision, and not merely its status)
+    is dropped: the table is untouched -/
+theorem C15_stale_result_dropped (r : R) (obj orig : RObj) (rev sid : Nat) (failed : Bool) (cur : RObj)
+    (hcur : r.get obj.id = some cur) (hrev : cur.rev ≠ rev)
+    (hst : ¬ (cur.kind = .pending ∧ cur.sid = sid)) :
+    (r.commitOne (obj, orig, rev, sid, failed)).objs = r.objs ∧
+    (r.commitOne (obj, orig, rev, sid, failed)).tableRev = r.tableRev := by
+  unfold R.commitOne
+  simp [hcur, hrev, hst]
+
+/-- a deleted object is never re-created by a status write -/
+theorem C15_deleted_not_recreated (r : R) (res : RObj × RObj × Nat × Nat × Bool)
+    (hdel : r.get res.1.id = none) : (r.commitOne res) = r := by
+  obtain ⟨obj, orig, rev, sid, failed⟩ := res
+  unfold R.commitOne
+  simp only at hdel ⊢
+  rw [hdel]
+
+/-- a status write never touches another object -/
+theorem C15_other_objects_untouched (r : R) (res : RObj × RObj × Nat × Nat × Bool) (id : Nat)
+    (h : id ≠ res.1.id) : (r.commitOne res).get id = r.get id := by
+  obtain ⟨obj, orig, rev, sid, failed⟩ := res
+  unfold R.commitOne
+  simp only at h ⊢
+  split
+  · rfl
+  · rename_i cur hcur
+    have hid : cur.id = obj.id := by
+      unfold R.get at hcur
+      have := List.find?_some hcur
+      simpa using this
+    split
+    · split
+      · unfold R.get; rw [retryAdd_objs]; exact get_setObj_other r _ id h
+      · exact get_setObj_other r _ id h
+    · split
+      · split
+        · unfold R.get; rw [retryAdd_objs]; exact get_setObj_other r _ id (by simp [hid, h])
+        · exact get_setObj_other r _ id (by simp [hid, h])
+      · rfl
+
+/-- through the "only the status changed" path the write keeps every field of
+    the CURRENT object except the status (so a foreign writer's change survives) -/
+theorem C15_fallback_keeps_current_fields (r : R) (obj orig : RObj) (rev sid : Nat) (cur : RObj)
+    (hcur : r.get obj.id = some cur) (hrev : cur.rev ≠ rev) (hst : cur.kind = .pending ∧ cur.sid = sid) :
+    ∃ o', (r.commitOne (obj, orig, rev, sid, false)).get obj.id = some o' ∧
+      o'.data = cur.data ∧ o'.other = cur.other ∧ o'.id = cur.id ∧ o'.kind = .done := by
+  have hid : cur.id = obj.id := by
+    unfold R.get at hcur
+    have := List.find?_some hcur
+    simpa using this
+  unfold R.commitOne
+  simp only [hcur, hrev, hst, and_self, if_true, if_false]
+  simp only [Bool.false_eq_true, if_false]
+  unfold R.setObj R.get
+  simp only
+  have hany : r.objs.any (fun x => decide (x.id = cur.id)) = true := by
+    unfold R.get at hcur
+    rw [List.any_eq_true]
+    exact ⟨cur, List.mem_of_find?_eq_some hcur, by simp⟩
+  simp only [hany, if_true]
+  -- the mapped list contains the rewritten object at cur's position
+  have : ∀ (l : List RObj) (n : RObj), (l.any fun x => decide (x.id = cur.id)) = true → n.id = cur.id →
+      ((l.map fun x => if x.id = cur.id then n else x).find? fun x => decide (x.id = obj.id)) = some n := by
+    intro l n hl hn
+    induction l with
+    | nil => simp at hl
+    | cons x xs ih =>
+      simp only [List.map_cons, List.find?_cons]
+      by_cases hx : x.id = cur.id
+      · simp [hx, hn, hid]
+      · have hx' : ¬ x.id = obj.id := by rw [← hid]; exact hx
+        simp only [hx, if_false, hx', decide_false]
+        simp only [List.any_cons, hx, decide_false, Bool.false_or] at hl
+        exact ih hl
+  refine ⟨_, this r.objs _ hany rfl, rfl, rfl, rfl, rfl⟩
+
+/-! ## non-vacuity -/
+example :
+    let r : R := ({} : R).userPut 1 5
+    (r.commitOne ((r.get 1).get!, (r.get 1).get!, 1, 1, false)).objs.map (·.kind) = [.done] := by decide
+
 end Sdb
